@@ -31,6 +31,11 @@ def plan(tier, seed):
 
 
 def run_shard(spec, res):
+    if spec["tier"] == "thorough" and spec["shard"] == 1:
+        # the repository's own test-suite re-run with the universal monitor installed (DESIGN §4): every internal call is judged
+        from vk.mon import suite as _suite
+
+        _suite.feed(res, PROPERTY, _suite.run_suite(("simplify",)), "M-simplify:calls")
     for key in spec["cases"]:
         try:
             run_case(key, spec["tier"], res)
@@ -39,6 +44,11 @@ def run_shard(spec, res):
 
 
 def replay(witness, res):
+    if witness.get("suite"):
+        from vk.mon import suite as _suite
+
+        _suite.replay_suite(res, PROPERTY, ("simplify",), "M-simplify:calls", witness)
+        return
     run_case(witness["case_key"], witness.get("tier", "quick"), res, only=witness.get("index"))
 
 
